@@ -336,6 +336,192 @@ def main():
         GUARD["ranges"] = []
         return res
 
+    # ---------------------------------------------------------------------------------------------
+    # inputs in every memory layout / scipy inputs that are valid but not canonical, consumed by every operation
+    # ---------------------------------------------------------------------------------------------
+    def build_layout(spec):
+        """a NumPy array with the values of the spec in the requested memory layout (the parent's oracle is the values)"""
+        a = dec_vals(spec["vals"], spec["dtype"], spec["shape"]).copy()
+        nd = a.ndim
+        lay = spec["layout"]
+        if lay == "C":
+            v = a
+        elif lay == "F":
+            v = np.asfortranarray(a)
+        elif lay == "T":                       # the transpose of a C-ordered array: a view, Fortran-contiguous
+            v = np.ascontiguousarray(a.T).T
+        elif lay == "strided":                 # every second element along every axis of a larger array
+            big = np.full(tuple(2 * s for s in a.shape), 77, dtype=a.dtype)
+            sl = (slice(None, None, 2),) * nd
+            big[sl] = a
+            v = big[sl]
+        elif lay == "negative":                # negative strides along every axis
+            sl = (slice(None, None, -1),) * nd
+            v = np.ascontiguousarray(a[sl])[sl]
+        elif lay == "negative-last":           # negative stride along the last axis only
+            sl = (slice(None),) * (nd - 1) + (slice(None, None, -1),)
+            v = np.ascontiguousarray(a[sl])[sl]
+        elif lay == "broadcast":               # zero strides: the parent made every slice along axis 0 equal
+            v = np.broadcast_to(a[0].copy(), a.shape)
+        elif lay == "offset":                  # C-contiguous, but not at the start of its buffer
+            big = np.concatenate([np.full(3, 55, dtype=a.dtype), a.reshape(-1)])
+            v = big[3:].reshape(a.shape)
+        elif lay == "readonly":
+            v = a
+            v.setflags(write=False)
+        elif lay == "F-readonly":
+            v = np.asfortranarray(a)
+            v.setflags(write=False)
+        elif lay == "swapped":                 # non-native byte order
+            v = a.astype(a.dtype.newbyteorder())
+        else:
+            raise ValueError(lay)
+        if v.shape != a.shape or not np.array_equal(np.asarray(v), a):
+            raise RuntimeError(f"layout {lay}: the view does not have the requested values")
+        return v, a
+
+    def build_scipy_variant(spec):
+        """a scipy array storing exactly the listed entries (row, col, value), in this order — explicit zeros, unsorted
+        indices and duplicate entries are all valid inputs; `flag_canonical` asks for has_canonical_format == True (the entries
+        are then sorted and unique; scipy is told by `sum_duplicates()`, which keeps explicit zeros)"""
+        R, C = spec["shape"]
+        ent = spec["entries"]
+        dt = np.dtype(spec["dtype"])
+        idx = np.dtype(spec.get("idx_dtype", "int32"))
+        vals = dec_vals([e[2] for e in ent], spec["dtype"])
+        rows = np.array([e[0] for e in ent], dtype=idx)
+        cols = np.array([e[1] for e in ent], dtype=idx)
+        lay = spec.get("parts_layout", "C")
+
+        def part(x):     # the arrays handed to the scipy constructor, possibly as non-contiguous views
+            if lay == "strided":
+                big = np.zeros(2 * len(x), dtype=x.dtype)
+                big[::2] = x
+                return big[::2]
+            if lay == "negative":
+                return np.ascontiguousarray(x[::-1])[::-1]
+            return x
+        kind = spec["kind"]
+        if kind == "coo":
+            s = sps.coo_array((part(vals), (part(rows), part(cols))), shape=(R, C))
+            if lay != "C":
+                s.data = part(vals)
+            if spec.get("flag_canonical"):
+                s.sum_duplicates()
+        else:
+            major, minor, n = (rows, cols, R) if kind == "csr" else (cols, rows, C)
+            if np.any(np.diff(major) < 0):
+                raise RuntimeError("entries of a compressed variant must be grouped by the compressed axis")
+            indptr = np.zeros(n + 1, dtype=idx)
+            for m in major:
+                indptr[m + 1] += 1
+            indptr = np.cumsum(indptr).astype(idx)
+            cls = sps.csr_array if kind == "csr" else sps.csc_array
+            s = cls((part(vals), part(minor.copy()), indptr), shape=(R, C))
+            if lay != "C":
+                s.data, s.indices = part(vals), part(minor.copy())
+        if s.nnz != len(ent) or s.dtype != dt:
+            raise RuntimeError(f"scipy kept {s.nnz} of {len(ent)} entries / dtype {s.dtype}")
+        if "flag_canonical" in spec and bool(s.has_canonical_format) != bool(spec["flag_canonical"]):
+            raise RuntimeError(f"has_canonical_format is {s.has_canonical_format}, the case asks for {spec['flag_canonical']}")
+        return s
+
+    def build_arrays_layout(spec):
+        """from_constituent_arrays with (some of) the constituent arrays given as non-contiguous views"""
+        f, arrs = build_arrays(spec)
+        lays = spec["layouts"]
+        out = []
+        for a, lay in zip(arrs, lays, strict=True):
+            if lay == "strided":
+                big = np.full(2 * len(a), 9, dtype=a.dtype)
+                big[::2] = a
+                out.append(big[::2])
+            elif lay == "negative":
+                out.append(np.ascontiguousarray(a[::-1])[::-1])
+            elif lay == "offset":
+                out.append(np.concatenate([np.full(2, 9, dtype=a.dtype), a])[2:])
+            elif lay == "readonly":
+                b = a.copy()
+                b.setflags(write=False)
+                out.append(b)
+            else:
+                out.append(a)
+        return f, tuple(out)
+
+    def t_consume(t):
+        """one input (a NumPy array in a given memory layout / a scipy array with a given entry list / constituent arrays in
+        given layouts) -> backend array (copy = None / True / False) -> every operation of the task.  Reports what each
+        operation returned (constituent arrays, or the NumPy / SciPy object) or raised; the parent has the values."""
+        spec = t["input"]
+        res = {"ops": []}
+        via = spec["via"]
+        if via == "numpy-layout":
+            src, _a = build_layout(spec)
+            res["flags"] = {"c": bool(src.flags.c_contiguous), "f": bool(src.flags.f_contiguous), "writeable": bool(src.flags.writeable),
+                            "strides": [int(s) for s in src.strides], "byteorder": src.dtype.byteorder}
+            keep = [src]
+            before = [np.asarray(src).tobytes()]
+        elif via == "scipy-variant":
+            src = build_scipy_variant(spec)
+            res["scipy_in"] = scipy_json(src)
+            keep = [src.data] + ([src.row, src.col] if src.format == "coo" else [src.indptr, src.indices])
+            before = [np.asarray(b).tobytes() for b in keep]
+        else:
+            f, arrs = build_arrays_layout(spec)
+            keep = list(arrs)
+            before = [np.asarray(b).tobytes() for b in keep]
+        try:
+            if via == "arrays-layout":
+                x = sparse.from_constituent_arrays(format=f, arrays=arrs, shape=tuple(spec["shape"]))
+            else:
+                x = sparse.asarray(src, copy=t.get("copy"))
+        except Exception as e:  # noqa: BLE001
+            res["asarray_exc"] = {"exc": type(e).__name__, "msg": str(e)[:200]}
+            return res
+        res["x"] = desc(x)
+        GUARD["ranges"] = input_ranges([b for b in keep if isinstance(b, np.ndarray) and b.flags.c_contiguous])
+        GUARD["invalid"] = []
+        GUARD["shared"] = {}
+        for op in t["ops"]:
+            try:
+                o = op["op"]
+                if o == "to_numpy":
+                    back = sparse.to_numpy(x)
+                    out = {"np": {"shape": list(back.shape), "dtype": str(back.dtype), "vals": enc_vals(np.ascontiguousarray(back))}}
+                elif o == "to_scipy":
+                    m = sparse.to_scipy(x)
+                    out = {"sp": {"kind": m.format, "shape": [int(v) for v in m.shape], "dtype": str(m.dtype), "vals": enc_vals(m.toarray())}}
+                elif o == "add":
+                    if op["other"] == "self":
+                        r = sparse.add(x, x)
+                    else:
+                        y = build_operand(op["other"])[0]
+                        r = sparse.add(y, x) if op.get("swap") else sparse.add(x, y)
+                    out = {"arr": desc(r)}
+                elif o == "reshape":
+                    out = {"arr": desc(sparse.reshape(x, tuple(op["shape"])))}
+                elif o == "asformat":
+                    tgt = build_format(op["format"]) if "format" in op else build_operand(op["like"])[0].format
+                    r = x.asformat(tgt)
+                    if op.get("then") == "to_scipy":
+                        m = sparse.to_scipy(r)
+                        out = {"sp": {"kind": m.format, "shape": [int(v) for v in m.shape], "dtype": str(m.dtype), "vals": enc_vals(m.toarray())}}
+                    elif op.get("then") == "to_numpy":
+                        back = sparse.to_numpy(r)
+                        out = {"np": {"shape": list(back.shape), "dtype": str(back.dtype), "vals": enc_vals(np.ascontiguousarray(back))}}
+                    else:
+                        out = {"arr": desc(r)}
+                else:
+                    raise ValueError(o)
+            except Exception as e:  # noqa: BLE001
+                out = {"exc": type(e).__name__, "msg": str(e)[:160]}
+            res["ops"].append(out)
+        res["input_unchanged"] = before == [np.asarray(b).tobytes() for b in keep]
+        res["x_after"] = desc(x) == res["x"]
+        res["invalid_free"] = len(GUARD["invalid"])
+        GUARD["ranges"] = []
+        return res
+
     def t_determine(t):
         res = []
         for case in t["cases"]:
@@ -814,7 +1000,7 @@ def main():
             GUARD["ranges"] = []
 
     handlers = {"roundtrip": t_roundtrip, "to_numpy_order": t_to_numpy_order, "op": t_op, "determine": t_determine,
-                "formats": t_formats, "ownership": t_ownership}
+                "formats": t_formats, "ownership": t_ownership, "consume": t_consume}
 
     for t in tasks:
         out.write(json.dumps({"start": t["id"]}) + "\n")
@@ -823,6 +1009,7 @@ def main():
             res = handlers[t["kind"]](t)
         except Exception as e:  # noqa: BLE001
             res = {"exc": type(e).__name__, "msg": str(e)[:400]}
+        gc.collect()   # what the task left in reference cycles (exceptions hold frames) is released now, not inside the next task
         out.write(json.dumps({"id": t["id"], "res": res}) + "\n")
         out.flush()
     out.write(json.dumps({"done": True}) + "\n")
